@@ -34,7 +34,7 @@ type odtPkg struct {
 // odtStyleFor picks the style name; auto collects automatic (content.xml) styles,
 // named the styles.xml ones.
 func odtStyleFor(p *lpara, auto, named map[string]bool) string {
-	L := strconv.Itoa(p.Level)
+	L := strconv.Itoa(p.styleLevel())
 	s := ""
 	switch p.Kind {
 	case "h":
